@@ -347,6 +347,8 @@ Fixpoint eval (en : genv) (e : gexpr) {struct e} : res gval :=
   | GSlice a lo hi st =>
       let? va := eval en a in let? vlo := eval en lo in let? vhi := eval en hi in let? vst := eval en st in
       slice_val va vlo vhi vst
+  (* constructs that do not occur in class Weaver (they belong to the function-level interpreter, Model/GlueFun.v) *)
+  | GList _ | GIfExp _ _ _ | GFloat _ _ | GNeg _ => Raise OtherExn
   end.
 
 Inductive outcome := ONormal | OReturn (v : gval) | ORaise (e : exn).
@@ -356,7 +358,11 @@ Definition exn_of_name (n : string) : exn :=
   else if seq_eqb n "TypeError" then TypeError else OtherExn.
 
 Definition assign1 (en : genv) (l : glhs) (v : gval) : res genv :=
-  match l with LSelf f => set_field en f v | LVar x => Ok (set_var en x v) end.
+  match l with
+  | LSelf f => set_field en f v
+  | LVar x => Ok (set_var en x v)
+  | LIdx _ _ | LSlice _ _ _ => Raise OtherExn      (* not used by class Weaver *)
+  end.
 
 (** t = v, or t1, ..., tk = v with v a k-tuple; targets are assigned from left to right *)
 Fixpoint assign_all (en : genv) (ls : list glhs) (vs : list gval) : genv * outcome :=
@@ -392,6 +398,7 @@ Fixpoint exec1 (en : genv) (st : gstmt) {struct st} : genv * outcome :=
       end
   | SRaise n => (en, ORaise (exn_of_name n))
   | SReturn e => match eval en e with Raise x => (en, ORaise x) | Ok v => (en, OReturn v) end
+  | SExpr _ | SAug _ _ _ | SFor _ _ _ => (en, ORaise OtherExn)      (* not used by class Weaver *)
   end.
 
 Fixpoint exec (en : genv) (l : list gstmt) {struct l} : genv * outcome :=
